@@ -8,7 +8,7 @@ use std::panic::{catch_unwind, AssertUnwindSafe};
 #[derive(Clone, Debug)]
 enum IE { Var(usize), Const(i64), Bin(&'static str, Box<IE>, Box<IE>) }
 #[derive(Clone, Debug)]
-enum P { Cmp(&'static str, IE, IE), And(Box<P>, Box<P>), Or(Box<P>, Box<P>), InList(usize, Vec<i64>), Const(bool), Other(IE) }
+enum P { Cmp(&'static str, IE, IE), And(Box<P>, Box<P>), Or(Box<P>, Box<P>), InList(usize, Vec<i64>), Const(bool), BoolCol, Other(IE) }
 
 const COLS: [&str; 3] = ["a", "b", "c"];
 fn gen_ie(r: &mut Rng, depth: u32) -> IE {
@@ -21,7 +21,7 @@ fn gen_p(r: &mut Rng, depth: u32) -> P {
                    let (l, rr) = if r.chance(1, 2) { (l, rr) } else { (rr, l) };
                    P::Cmp(*r.pick(&["CGt", "CGtEq", "CLt", "CLtEq", "CEq"]), l, rr) }
         4 => { let n = r.range(1, 4); P::InList(r.below(3) as usize, (0..n).map(|_| r.range(-12, 12)).collect()) }
-        5 => if r.chance(1, 4) { P::Const(r.chance(1, 2)) } else { P::Other(IE::Bin(*r.pick(&["Gt", "Lt"]), Box::new(gen_ie(r, 1)), Box::new(gen_ie(r, 1)))) },
+        5 => if r.chance(1, 4) { P::Const(r.chance(1, 2)) } else if r.chance(1, 3) { P::BoolCol } else { P::Other(IE::Bin(*r.pick(&["Gt", "Lt"]), Box::new(gen_ie(r, 1)), Box::new(gen_ie(r, 1)))) },
         6 | 7 => P::And(Box::new(gen_p(r, depth - 1)), Box::new(gen_p(r, depth - 1))),
         _ => P::Or(Box::new(gen_p(r, depth - 1)), Box::new(gen_p(r, depth - 1))),
     }
@@ -29,7 +29,7 @@ fn gen_p(r: &mut Rng, depth: u32) -> P {
 fn ie_coq(e: &IE) -> String { match e { IE::Var(n) => format!("(EVar {})", n), IE::Const(z) => format!("(EConst {})", coq_z(*z as i128)), IE::Bin(op, l, r) => format!("(EBin {} {} {})", op, ie_coq(l), ie_coq(r)) } }
 fn p_coq(p: &P) -> String {
     match p { P::Cmp(c, l, r) => format!("(PCmp {} {} {})", c, ie_coq(l), ie_coq(r)), P::And(a, b) => format!("(PAnd {} {})", p_coq(a), p_coq(b)), P::Or(a, b) => format!("(POr {} {})", p_coq(a), p_coq(b)),
-        P::InList(c, vs) => format!("(PInList {} {})", c, coq_list(vs, |v| coq_z(*v as i128))), P::Const(b) => format!("(PConst {})", coq_bool(*b)), P::Other(e) => format!("(POther {})", ie_coq(e)) }
+        P::InList(c, vs) => format!("(PInList {} {})", c, coq_list(vs, |v| coq_z(*v as i128))), P::Const(b) => format!("(PConst {})", coq_bool(*b)), P::BoolCol => "(PBoolCol 3)".to_string(), P::Other(e) => format!("(POther {})", ie_coq(e)) }
 }
 fn ie_expr(e: &IE) -> Expr {
     match e { IE::Var(n) => Expr::col(COLS[*n]), IE::Const(z) => Expr::val(*z),
@@ -41,6 +41,7 @@ fn p_expr(p: &P) -> Expr {
         P::And(a, b) => Expr::and(p_expr(a), p_expr(b)), P::Or(a, b) => Expr::or(p_expr(a), p_expr(b)),
         P::InList(c, vs) => Expr::in_list(Expr::col(COLS[*c]), Expr::list(vs.clone())),
         P::Const(b) => Expr::val(*b),
+        P::BoolCol => Expr::col("d"),
         // negated, so that the top-level function is one the narrowing does not know
         P::Other(e) => Expr::not(ie_expr(e)),
     }
@@ -51,7 +52,8 @@ fn int_set(r: &mut Rng) -> Vec<(i64, i64)> {
         _ => { let a = r.range(-15, 15); let b = r.range(-15, 15); if a <= b { (a, b) } else { (b, a) } } }).collect()
 }
 fn field_ivs(t: &DataType, name: &str) -> Option<Vec<[i64; 2]>> {
-    if let DataType::Struct(s) = t { match s.data_type(name).as_ref() { DataType::Integer(i) => Some(i.iter().map(|[a, b]| [*a, *b]).collect()), _ => None } } else { None }
+    if let DataType::Struct(s) = t { match s.data_type(name).as_ref() { DataType::Integer(i) => Some(i.iter().map(|[a, b]| [*a, *b]).collect()),
+        DataType::Boolean(i) => Some(i.iter().map(|[a, b]| [*a as i64, *b as i64]).collect()), _ => None } } else { None }
 }
 
 pub fn run(outdir: &str, seed: u64, thorough: bool) -> serde_json::Value {
@@ -64,22 +66,27 @@ pub fn run(outdir: &str, seed: u64, thorough: bool) -> serde_json::Value {
         let p = gen_p(&mut r, 2);
         let sets: Vec<Vec<(i64, i64)>> = (0..3).map(|_| int_set(&mut r)).collect();
         let dts: Vec<DataType> = sets.iter().map(|s| to_dt(&Ty::Int(s.clone()))).collect();
-        let st_ty = DataType::structured([("a", dts[0].clone()), ("b", dts[1].clone()), ("c", dts[2].clone())]);
+        // a fourth, boolean column, only used as a bare predicate
+        let dbool = match r.below(4) { 0 => DataType::boolean_values([false]), 1 => DataType::boolean_values([true]), 2 => DataType::boolean_values([false, true]), _ => DataType::boolean() };
+        let dvals: Vec<bool> = match r.below(4) { _ if dbool == DataType::boolean_values([false]) => vec![false], _ if dbool == DataType::boolean_values([true]) => vec![true], _ => vec![false, true] };
+        let st_ty = DataType::structured([("a", dts[0].clone()), ("b", dts[1].clone()), ("c", dts[2].clone()), ("d", dbool.clone())]);
         let ex = p_expr(&p);
-        let tenv: Vec<Vec<[i64; 2]>> = COLS.iter().map(|c| field_ivs(&st_ty, c).unwrap()).collect();
+        let all_cols = ["a", "b", "c", "d"];
+        let tenv: Vec<Vec<[i64; 2]>> = all_cols.iter().map(|c| field_ivs(&st_ty, c).unwrap()).collect();
         let filtered = catch_unwind(AssertUnwindSafe(|| st_ty.filter(&ex)));
         let filtered = match filtered { Ok(f) => f, Err(e) => { st.bump("filter_panicked"); if st.notes.len() < 5 { st.notes.push(format!("filter panicked on {} with {}: {}", st_ty, ex, panic_msg(e))); } continue; } };
-        let out: Option<Vec<Vec<[i64; 2]>>> = COLS.iter().map(|c| field_ivs(&filtered, c)).collect();
+        let out: Option<Vec<Vec<[i64; 2]>>> = all_cols.iter().map(|c| field_ivs(&filtered, c)).collect();
         // oracle: rows of the input type satisfying the predicate stay in the narrowed type
         let mut sat = 0;
         for _ in 0..8 {
             let vs: Vec<i64> = sets.iter().map(|s| { let (a, b) = *r.pick(s); match r.below(4) { 0 => a, 1 => b, 2 => r.range(a, b), _ => r.range(a.max(-16), b.min(16).max(a.max(-16))) } }).collect();
-            let row = Value::structured([("a", Value::integer(vs[0])), ("b", Value::integer(vs[1])), ("c", Value::integer(vs[2]))]);
+            let dv = *r.pick(&dvals);
+            let row = Value::structured([("a", Value::integer(vs[0])), ("b", Value::integer(vs[1])), ("c", Value::integer(vs[2])), ("d", Value::boolean(dv))]);
             if !st_ty.contains(&row) { continue; }
             let holds = catch_unwind(AssertUnwindSafe(|| ex.value(&row).ok())).unwrap_or(None);
             if holds == Some(Value::boolean(true)) {
                 sat += 1;
-                if !member(&filtered, &row) { st.violation(json!({"kind":"satisfying-row-dropped","predicate":ex.to_string(),"type":st_ty.to_string(),"narrowed":filtered.to_string(),"row":vs})); }
+                if !member(&filtered, &row) { st.violation(json!({"kind":"satisfying-row-dropped","predicate":ex.to_string(),"type":st_ty.to_string(),"narrowed":filtered.to_string(),"row":vs,"d":dv})); }
             }
         }
         let pr = |l: &Vec<[i64; 2]>| coq_list(l, |[a, b]| format!("({},{})", coq_z(*a as i128), coq_z(*b as i128)));
